@@ -1,6 +1,7 @@
 from sa.selftest.harness import M, T
 
 X = "sharepoint2text/parsing/extractors/"
+PD = "sharepoint2text/parsing/extractors/pdf/pdf_extractor.py"
 MUTANTS = [
     M("epub-count-before-read", X + "epub_extractor.py", "            data = ctx.read_bytes(href)\n            # Count only images that could be read, so numbers stay gap-free\n            image_counter += 1\n", "            image_counter += 1\n            data = ctx.read_bytes(href)\n", "C14-PAIR"),
     M("docx-error-record-unnumbered", X + "ms_modern/docx_extractor.py", "DocxImage(rel_id=rel_id, error=str(e), image_index=image_counter)", "DocxImage(rel_id=rel_id, error=str(e))", "C14-PAIR"),
@@ -14,9 +15,12 @@ MUTANTS = [
     M("pptx-parent-path-guard", X + "ms_modern/pptx_extractor.py", "                    if normalized:\n                        normalized.pop()", "                    if len(normalized) > 1:\n                        normalized.pop()", "C14-REF"),
     M("jpeg-advance-without-marker", X + "ms_modern/xlsx_extractor.py", "            i += 2 + length", "            i += length", "C14-JPEG"),
     M("jpeg-advance-image-utils", X + "util/image_utils.py", "offset += 2 + segment_len", "offset += 4 + segment_len", "C14-JPEG"),
+    M("filter-chain-first", PD, "        filter_type = filter_type[-1] if filter_type else \"\"", "        filter_type = filter_type[0] if filter_type else \"\"", "C14-CHAIN"),
+    M("flate-content-type-jpeg", PD, '    "/FlateDecode": "image/png",', '    "/FlateDecode": "image/jpeg",', "C14-CHAIN"),
 ]
 TWINS = [
     T("counter-renamed-epub", X + "epub_extractor.py", "            data = ctx.read_bytes(href)\n            # Count only images that could be read, so numbers stay gap-free\n            image_counter += 1\n", "            data = ctx.read_bytes(href)\n            image_counter = image_counter + 0\n            image_counter += 1\n"),
+    T("filter-chain-len-minus-one", PD, "        filter_type = filter_type[-1] if filter_type else \"\"", "        filter_type = filter_type[len(filter_type) - 1] if filter_type else \"\""),
 ]
 
 # --- seeded changes kept under /verif/seeded (sub-agents saw only the property text); each must be reported by the named rule
@@ -27,5 +31,7 @@ SEEDED = [
     ("C14-1", "C14-PAIR"),
     ("C14-2", "C14-REF"),
     ("C14-3", "C14-JPEG"),
+    ("C14-6", "C14-CHAIN"),
+    ("C14-7", "C14-JPEG"),
 ]
 MUTANTS = list(MUTANTS) + [_P("seed-" + sid, _os.path.join(_SEEDS, sid, "patch.diff"), rule) for sid, rule in SEEDED if _os.path.exists(_os.path.join(_SEEDS, sid, "patch.diff"))]
